@@ -35,6 +35,7 @@ def run(ctx):
     ctx.step(common.handle_deref_lifetime, ctx, "C15.lifetime", list(OPS), floor=4)
     ctx.step(onecs, ctx)
     ctx.step(flow_rules, ctx)
+    ctx.step(common.generic_witnesses, ctx, "C15.generic", ["C15"])
     ctx.step(common.witnesses, ctx, "C15.witness", ["C15"])
 
 
